@@ -348,6 +348,14 @@ func c09All(env *core.Env, c *fmtCase) core.Verdict {
 		tree["shared/"+base] = contents[names[k]]
 		tree[names[k]] = sut.SymlinkPrefix + strings.Repeat("../", strings.Count(names[k], "/")) + "shared/" + base
 	}
+	// a canonical file with the i flag at the front of the walk, and a canonical file without the flag but with an
+	// upper-case class behind it: what --check finds in one file is no business of the next
+	if rng.Intn(3) == 0 {
+		tree["regex-assembly/900100.ra"] = fmtModel("##!+ i\nfoo[a-z]bar\n")
+		tree["regex-assembly/include/zz-upper.ra"] = fmtModel("java\\.[A-Z][a-z]+\n[A-Z]{2,}\n")
+		contents["regex-assembly/900100.ra"], contents["regex-assembly/include/zz-upper.ra"] = tree["regex-assembly/900100.ra"], tree["regex-assembly/include/zz-upper.ra"]
+		names = append(names, "regex-assembly/900100.ra", "regex-assembly/include/zz-upper.ra")
+	}
 	// one more file may be refused by the formatter (an end marker that closes no block, with lines above it): the
 	// command fails, that file stays as it is, and every other file is formatted as if it were not there
 	refused := ""
